@@ -174,6 +174,9 @@ def run(ctx):
                 c = strip(c)
                 if c[0] == "cmp" and c[1] == "in" and c[3][0] in ("list", "tuple", "set") and sorted(v[3] for v in c[3][1] if v[0] == "enum") == [0xB0, 0xB1]:
                     return True
+                if c[0] == "cmp" and c[1] == "in" and c[3][0] == "const" and isinstance(c[3][1], (tuple, list, set, frozenset)) \
+                        and sorted(int(v) for v in c[3][1]) == [0xB0, 0xB1]:
+                    return True          # a named constant collection of the two ids
                 if c[0] == "cmp" and c[1] == "==" and any(x[0] == "enum" and x[3] in (0xB0, 0xB1) for x in (c[2], c[3])):
                     return True
             return False
